@@ -38,8 +38,8 @@ public:
         double ew_res,
         double ns_res,
         unsigned num_steps)
-        : width_(rows),
-          height_(cols),
+        : width_(cols),
+          height_(rows),
           west_east_resolution_(ew_res),
           north_south_resolution_(ns_res),
           num_steps_(num_steps),
